@@ -11,3 +11,4 @@ import AITB.Props.C03Horizon
 import AITB.Props.C03Tie
 import AITB.Props.C03Qmdp
 import AITB.Props.C03Examples
+import AITB.Props.C03Bridge
